@@ -12,6 +12,9 @@ INSTANCES = {
     "2x1b2": (["s1", "s2"], 1, 4, 2, False),
     "1x2b1": (["s1"], 2, 4, 1, False),
     "1x3b2": (["s1"], 3, 5, 2, False),
+    "1x3b1": (["s1"], 3, 5, 1, False),
+    "1x5b3": (["s1"], 5, 7, 3, False),
+    "1x4b1": (["s1"], 4, 6, 1, False),     # a worker run of more than `throughput` (rewritten to 1) iterations with a backlog left
     "2x1b2stop": (["s1", "s2"], 1, 4, 2, True),
     "2x2b2": (["s1", "s2"], 2, 6, 2, False),
     "2x2b1": (["s1", "s2"], 2, 6, 1, False),
@@ -19,12 +22,13 @@ INSTANCES = {
     "2x2b2stop": (["s1", "s2"], 2, 6, 2, True),
 }
 PLAN = {
-    "quick": {"C01": ["2x1b2", "1x2b1", "1x3b2"], "C02": ["2x1b2", "2x1b2stop", "1x2b1"], "C03": ["2x1b2", "1x2b1", "1x3b2"]},
-    "thorough": {"C01": ["2x1b2", "1x2b1", "1x3b2", "2x2b2", "2x2b1", "3x1b2"],
-                 "C02": ["2x1b2", "2x1b2stop", "1x2b1", "2x2b2", "2x2b2stop", "3x1b2"],
+    "quick": {"C01": ["2x1b2", "1x2b1", "1x3b2", "1x3b1"], "C02": ["2x1b2", "2x1b2stop", "1x2b1", "1x4b1"], "C03": ["2x1b2", "1x2b1", "1x3b2"]},
+    "thorough": {"C01": ["2x1b2", "1x2b1", "1x3b2", "1x3b1", "1x5b3", "2x2b2", "2x2b1", "3x1b2"],
+                 "C02": ["2x1b2", "2x1b2stop", "1x2b1", "1x3b1", "1x4b1", "2x2b2", "2x2b2stop", "3x1b2"],
                  "C03": ["2x1b2", "1x2b1", "1x3b2", "2x2b2", "2x2b1", "3x1b2"]},
 }
 RING_SIZES = {"quick": [1, 2, 3, 4], "thorough": [1, 2, 3, 4, 7]}
+RING_ONLY = {"1x5b3": [4, 5], "1x4b1": [1, 4]}      # a batch of three popped without wrapping, then pushes that wrap around without growing
 INVS = "TypeOK C02_NoOverlap C02_ProcSet C03_NoLostWakeup C03_Terminal C01_NoDup C01_Order C01_NoForge C01_Complete"
 
 
@@ -41,7 +45,7 @@ def cfg_text(inst, recheck=True, live=True):
 
 def build_driver(sc, batch):
     shim, rep = overlay.shim_file(sc, "actor/inbox.go", ["sync/atomic", overlay.MOD + "/ringbuffer"],
-                                  {"messageBatchSize": str(batch)}, tag="b%d_" % batch)
+                                  {"messageBatchSize": str(batch), "defaultThroughput": "1"}, tag="b%d_" % batch)
     ov = overlay.write_overlay(sc, "ov_inbox_b%d.json" % batch, {"actor/inbox.go": shim})
     if "messageBatchSize" not in rep.get("consts", []):
         raise vlib.Broken("messageBatchSize constant not found in actor/inbox.go; cannot scale the batch size")
@@ -93,7 +97,7 @@ def do_check(sc, prop, tier):
             raise vlib.Broken("Inbox.tla violates %s on instance %s: the model is wrong, not the code" % (r.violated, inst))
         if batch not in drivers:
             drivers[batch] = build_driver(sc, batch)[0]
-        for ring in RING_SIZES[tier]:
+        for ring in RING_ONLY.get(inst, RING_SIZES[tier]):
             cfg = inst_config(inst, ring)
             p = vlib.run([drivers[batch], "-graph", gjson, "-config", json.dumps(cfg), "-seed", str(vlib.seed() + ring),
                           "-explore-budget", "120s" if tier == "quick" else "600s"], timeout=1500)
@@ -140,6 +144,12 @@ def do_check(sc, prop, tier):
             viol["what"], inst, cfg["RingSize"], len(viol["schedule"])))
         if len(v.violations) >= 3:
             break
+    if prop == "C02" and not v.violations:
+        # engine level: restarts, replay of the restart buffer, pills, budget exhaustion -- the paths on which Start
+        # reaches inbox.Start while a worker of the same actor may still be inside run()
+        import fam_actor
+        binp2 = vlib.go_build(sc, "./cmd/actorscen", "actorscen")
+        fam_actor.do_check(sc, binp2, "C02", tier, v)
     if prop == "C03":
         # vacuity guard: without the Len() re-check the model must lose a wake-up
         d = vlib.stage_specs(sc)
